@@ -793,10 +793,22 @@ class Spectrum(Generic[_TData]):
     @classmethod
     def _unpickle(cls, args: tuple[Any, ...], kwargs: dict[str, Any]) -> Self:
         data, dtype = kwargs.get("data"), args[-1]
-        if isinstance(data, np.ndarray) and data.dtype != dtype:
-            # Pickle protocols below 5 store an array of non-native byte order as a native one.
-            kwargs = {**kwargs, "data": data.astype(dtype)}
+        if isinstance(data, np.ndarray):
+            if data.dtype != dtype:
+                # Pickle protocols below 5 store an array of non-native byte order as a native one.
+                data = data.astype(dtype)
+            if not (data.flags.owndata and data.flags.c_contiguous):
+                # NumPy rebuilds larger arrays over the pickle's own bytes, and Fortran-ordered ones
+                # in Fortran order. The unpickled object must own a C-ordered buffer like any other
+                # waveform, or it could never grow. (Shallow copies are made by __copy__.)
+                data = np.array(data, order="C")
+            kwargs = {**kwargs, "data": data}
         return cls(*args, **kwargs)
+
+    def __copy__(self) -> Self:
+        """Return a shallow copy that shares the data, extended properties and timing."""
+        ctor_args, ctor_kwargs = self.__reduce__()[1]
+        return self.__class__(*ctor_args, **ctor_kwargs)
 
     def __reduce_ex__(self, protocol: SupportsIndex, /) -> tuple[Any, ...]:
         """Return object state for pickling with the specified protocol."""
